@@ -750,6 +750,14 @@ func (w *world) opPick(op *Op) {
 	if op.Exp {
 		ctx, cancel = context.WithDeadline(base, time.Now().Add(-time.Second))
 		w.labels["pick-with-ended-context"]++
+	} else if op.Late > 0 {
+		ctx, cancel = context.WithCancel(base)
+		dl := time.Now()
+		if op.Late%2 == 0 {
+			dl = dl.Add(-time.Millisecond)
+		}
+		ctx = lateCtx{ctx, dl}
+		w.labels["pick-with-deadline-reached-but-context-not-done"]++
 	} else if op.DlMs > 0 {
 		ctx, cancel = context.WithTimeout(base, time.Duration(op.DlMs)*time.Millisecond)
 	} else {
